@@ -164,6 +164,7 @@ def _s2c_worker(args):
             viols.append(("s2c", "raises", {"state": s, "action": a, "exc": repr(ex)},
                           {"op": a[0], "exc": type(ex).__name__}))
             continue
+        targets = [json.loads(t) for t in targets]
         d = tl_impl.compare_any(targets, tl_impl.project(impl, pool))
         if d:
             viols.append(("s2c", d[0][0], {"state": s, "action": a, "expected": targets[0], "diff": d[:4]},
@@ -356,16 +357,28 @@ def main(chk):
 
     # ---- 2. GEN + S2C graph replay
     gen = tlc.run("TimelineMC", "Timeline.gen.%s.cfg" % tier, "c01/gen", workers=1, timeout=3000, heap="16g")
-    edges = gen.json_lines()
-    if not edges:
+    # (the thorough graph has millions of transitions: lines are parsed one at a time and the successors kept as compact
+    #  text, so that the forked replay workers do not each end up with a private copy of a multi-gigabyte object graph)
+    groups = collections.OrderedDict()
+    pool = None
+    for ln in gen.printed:
+        ln = ln.strip()
+        if not ln.startswith('"'):
+            continue
+        try:
+            e = json.loads(json.loads(ln))
+        except Exception:
+            continue
+        if pool is None:
+            pool = sorted(e["s"]["start"])
+        groups.setdefault((_key(e["s"]), json.dumps(e["a"])), []).append(json.dumps(e["t"], sort_keys=True))
+    if not groups:
         chk.machinery("generation produced no transitions")
         return
-    pool = sorted(edges[0]["s"]["start"])
     max_t = 2
-    groups = collections.OrderedDict()
-    for e in edges:
-        groups.setdefault((_key(e["s"]), json.dumps(e["a"])), []).append(e["t"])
     groups = list(groups.items())
+    gen.printed = []
+    gen.stdout = ""
     classes = query_classes([tl_impl.POOL_CLS[o] for o in pool], ct)
     _G.update(score=score, groups=groups, pool=pool, classes=classes, max_t=max_t)
     nproc = min(16, os.cpu_count() or 4)
@@ -394,7 +407,7 @@ def main(chk):
         a = json.loads(ak)
         chk.nontrivial("edge:" + sk + ak) if json.loads(sk)["pts"] else None
     for (sk, ak), targets in groups[1000:1003]:
-        chk.sample({"kind": "s2c transition", "state": json.loads(sk), "action": json.loads(ak), "successor": targets[0]})
+        chk.sample({"kind": "s2c transition", "state": json.loads(sk), "action": json.loads(ak), "successor": json.loads(targets[0])})
 
     # queries on the states of the graph, validated by TLC
     traces = [{"tid": i + 1, "q0": 1, "events": ev} for i, ev in enumerate(qtraces)]
